@@ -30,7 +30,7 @@ def run(rep):
     tier = rep.tier
     names = [s.name for s in seeds.SEEDS if s.group == "config"]
     if tier == "quick":
-        st = explore.explore(rep, names, "vf.checks.c10", tier, depth=2, root_parts=8, ops=CONFIG_OPS, max_states_per_level=1500)
+        st = explore.explore(rep, names, "vf.checks.c10", tier, depth=2, root_parts=8, ops=CONFIG_OPS, max_states_per_level=400)
     else:
         st = explore.explore(rep, names, "vf.checks.c10", tier, depth=3, root_parts=8, ops=CONFIG_OPS, max_states_per_level=4000,
                              time_budget_s=2400)
